@@ -98,4 +98,61 @@ verif_call_with_regs:
 	pop	rbx
 	ret
 
+
+;; void verif_poison_vregs(unsigned mask)   bit0: YMM usable (AVX), bit1: ZMM/opmask usable (AVX-512F)
+;; The vector and mask registers are caller-saved and hold *unspecified* values when a function is entered; a kernel that happens to rely on
+;; what its caller left there (a zero register, a clean upper half) works in every test program and fails in the field.  Called right before
+;; every guarded library call.
+global verif_poison_vregs:function
+verif_poison_vregs:
+	mov	rax, 0xA5C3E1F00F1E3C5A
+	movq	xmm0, rax
+	punpcklqdq xmm0, xmm0
+	movdqa	xmm1, xmm0
+	pslld	xmm1, 1
+	movdqa	xmm2, xmm0
+	psrld	xmm2, 3
+	movdqa	xmm3, xmm1
+	movdqa	xmm4, xmm2
+	movdqa	xmm5, xmm0
+	movdqa	xmm6, xmm1
+	movdqa	xmm7, xmm2
+	movdqa	xmm8, xmm0
+	movdqa	xmm9, xmm1
+	movdqa	xmm10, xmm2
+	movdqa	xmm11, xmm0
+	movdqa	xmm12, xmm1
+	movdqa	xmm13, xmm2
+	movdqa	xmm14, xmm0
+	movdqa	xmm15, xmm1
+	test	edi, 1
+	jz	.done
+%assign i 0
+%rep 16
+	vinsertf128 ymm %+ i, ymm %+ i, xmm %+ i, 1
+%assign i i+1
+%endrep
+	test	edi, 2
+	jz	.done
+%assign i 0
+%rep 16
+	vinserti64x4 zmm %+ i, zmm %+ i, ymm %+ i, 1
+%assign i i+1
+%endrep
+%assign i 16
+%rep 16
+	vpbroadcastq zmm %+ i, rax
+%assign i i+1
+%endrep
+	mov	eax, 0xA5C3
+	kmovw	k1, eax
+	kmovw	k2, eax
+	kmovw	k3, eax
+	kmovw	k4, eax
+	kmovw	k5, eax
+	kmovw	k6, eax
+	kmovw	k7, eax
+.done:
+	ret
+
 section .note.GNU-stack noalloc noexec nowrite progbits
